@@ -110,6 +110,25 @@ theorem retrieves_exactly_newest (o : Ops σ) (dev : Nat → Nat → R Bytes) (t
   rw [h1]
   simp only [Res.bind_ok, hr]
 
+/-- **table_must_fit**: a manifest table (8 byte count + 64 byte entries) that does not lie
+within the 64 bit address space is refused before any entry is read; a table that ends exactly at
+`2^64` is accepted (`entriesP` then yields its `n` entries from `table + 8`). -/
+theorem table_must_fit (o : Ops σ) (dev : Nat → Nat → R Bytes) (table n : Nat)
+    (h1 : readRegP dev table 0 8 = .ok n) :
+    (2 ^ 64 < table + 8 + n * 64 → fetchFrom o dev table = .err .invalidDevice) ∧
+    (table + 8 + n * 64 ≤ 2 ^ 64 → entriesP dev table = .ok (n, table + 8)) := by
+  constructor
+  · intro h2
+    unfold fetchFrom entriesP
+    simp only [h1, Res.bind_ok]
+    rw [if_neg (by omega)]
+    rfl
+  · intro h2
+    unfold entriesP
+    simp only [h1, Res.bind_ok]
+    rw [if_pos h2]
+    rfl
+
 /-- The version decoding the selection compares: all 16 bits of the subminor count
 (`1.0.256` is newer than `1.0.255`). -/
 theorem version_order_full_width :
@@ -120,8 +139,9 @@ theorem version_order_full_width :
 /-! ## 2. After the selection -/
 
 /-- **returns_stored_text** (with **hash_gate** and the zip branch): if the retrieval of the
-selected entry succeeds with text `t`, then the file was read completely from the entry's
-advertised `(address, size)` in one `DeviceControl::read`, the 20 stored hash bytes are all zero
+selected entry succeeds with text `t`, then the file is what the stepwise read `readFileP` of
+the entry's advertised `(address, size)` returned (see `reads_whole_file`: exactly the `size`
+bytes stored at `address`; one `DeviceControl::read` when `size ≤ 1 MiB`), the 20 stored hash bytes are all zero
 or equal the SHA-1 of exactly those bytes, and `t` is `lossy file` when the entry is flagged
 uncompressed, resp. `lossy xml` where `unzip file = some [some xml]` (exactly one member, which
 was extractable) when it is flagged zip.  Nothing else can be returned. -/
@@ -130,7 +150,7 @@ theorem returns_stored_text (o : Ops σ) (dev : Nat → Nat → R Bytes) (c : Ca
     ∃ addr size file hashAddr hash,
       readRegP dev c.entry ENTRY_REGISTER_ADDRESS 8 = .ok addr ∧
       readRegP dev c.entry ENTRY_FILE_SIZE 8 = .ok size ∧
-      dev addr size = .ok file ∧
+      readFileP dev addr size = .ok file ∧
       regAddr c.entry ENTRY_SHA1_HASH = .ok hashAddr ∧ dev hashAddr 20 = .ok hash ∧
       (hash.all (· == 0) = true ∨ o.sha1 file = hash) ∧
       ((compressionType c.info = .ok .uncompressed ∧ t = o.lossy file) ∨
@@ -153,13 +173,44 @@ theorem returns_stored_text (o : Ops σ) (dev : Nat → Nat → R Bytes) (c : Ca
       right
       exact ⟨h3, (decodeFile_zip_iff o buf t).mp h6⟩
 
+/-- **reads_whole_file**: the buffer is grown in steps of at most 1 MiB while data arrives
+(nothing is allocated from the advertised size); when the device serves the advertised range
+`[addr, addr+size)` from an image `mem`, the result is exactly the `size` bytes stored at
+`addr` — for every size. -/
+theorem reads_whole_file (dev : Nat → Nat → R Bytes) (mem : Nat → UInt8) (addr size : Nat)
+    (hs : ServesFile dev mem addr size) (ha : addr + size ≤ 2 ^ 64) :
+    readFileP dev addr size = .ok (memRange mem addr size) :=
+  readFileP_mem dev mem addr size hs ha
+
+/-- a file of at most one step (1 MiB) is one `DeviceControl::read` of exactly `(addr, size)`;
+an advertised size of 0 causes no device access and yields the empty file -/
+theorem file_read_one_step (dev : Nat → Nat → R Bytes) (addr size : Nat) (hs : size ≤ XML_READ_STEP)
+    (ha : addr < 2 ^ 64) :
+    readFileP dev addr size = if size = 0 then .ok [] else dev addr size := by
+  by_cases h0 : size = 0
+  · subst h0; simp [readFileP_zero]
+  · rw [if_neg h0]; exact readFileP_small dev addr size (by omega) hs ha
+
+/-- **absurd sizes**: if the device cannot serve the first step of the advertised range (e.g.
+the advertised size exceeds what it maps), the retrieval of the file is that error — whatever
+the advertised size (2^40, 2^63, u64::MAX …); with `total`: never a panic. -/
+theorem absurd_size_is_error (dev : Nat → Nat → R Bytes) (addr size : Nat) (e : Err) (h0 : 0 < size)
+    (ha : addr < 2 ^ 64) (hfail : dev addr (min XML_READ_STEP size) = .err e) :
+    readFileP dev addr size = .err e := by
+  have hf : size / XML_READ_STEP + 1 = (size / XML_READ_STEP) + 1 := rfl
+  unfold readFileP
+  rw [hf]
+  unfold readFileLoopP
+  simp only [h0, if_true, Nat.add_zero, Nat.sub_zero, ha, Res.bind_ok, hfail]
+  rfl
+
 /-- **hash_gate**: hash present and different from the SHA-1 of the retrieved file ⇒ error,
 whatever the compression flag and the archive content. -/
 theorem hash_gate (o : Ops σ) (dev : Nat → Nat → R Bytes) (c : Candidate)
     (addr size hashAddr : Nat) (file hash : Bytes)
     (h1 : readRegP dev c.entry ENTRY_REGISTER_ADDRESS 8 = .ok addr)
     (h2 : readRegP dev c.entry ENTRY_FILE_SIZE 8 = .ok size)
-    (h3 : dev addr size = .ok file)
+    (h3 : readFileP dev addr size = .ok file)
     (h4 : regAddr c.entry ENTRY_SHA1_HASH = .ok hashAddr) (h5 : dev hashAddr 20 = .ok hash)
     (hpresent : hash.all (· == 0) = false) (hdiff : o.sha1 file ≠ hash) :
     ∃ e, fetchSelected o dev c = .err e := by
@@ -209,7 +260,7 @@ theorem succeeds_when_wellformed (o : Ops σ) (dev : Nat → Nat → R Bytes) (c
     (h1 : readRegP dev c.entry ENTRY_REGISTER_ADDRESS 8 = .ok addr)
     (h2 : readRegP dev c.entry ENTRY_FILE_SIZE 8 = .ok size)
     (hc : compressionType c.info = .ok comp)
-    (h3 : dev addr size = .ok file)
+    (h3 : readFileP dev addr size = .ok file)
     (h4 : regAddr c.entry ENTRY_SHA1_HASH = .ok hashAddr) (h5 : dev hashAddr 20 = .ok hash)
     (hh : hash.all (· == 0) = true ∨ o.sha1 file = hash)
     (hd : decodeFile o comp file = .ok t) :
